@@ -1,1 +1,151 @@
-pub fn run() -> Result<usize, String> { Ok(0) }
+//! Model self-check, run at the start of every process. The reference model
+//! must reproduce fixed vectors: the byte images hand-written by the crate's
+//! maintainers in its unit tests (copied here as constants) and vectors worked
+//! by hand from the RFC figures. A failure is a harness error (INCONCLUSIVE),
+//! never a violation.
+
+use super::dec::{self, RejectReason, SdesClass};
+use super::{enc, repr};
+use crate::cfg::*;
+use crate::json::hex;
+
+fn rb0(ssrc: u32) -> Rb {
+    Rb { ssrc, fraction: 0, cumulative: 0, ext_seq: 0, jitter: 0, lsr: 0, dlsr: 0 }
+}
+
+fn item(t: u8, p: &[u8], v: &str) -> Item {
+    Item { type_: t, prefix: p.to_vec(), value: v.to_string() }
+}
+
+pub fn run() -> Result<usize, String> {
+    let mut n = 0usize;
+    let mut enc_eq = |name: &str, cfg: Cfg, want: &[u8]| -> Result<(), String> {
+        n += 1;
+        let got = enc::enc(&cfg).ok_or_else(|| format!("{name}: model says unrepresentable"))?;
+        if got != want {
+            return Err(format!("{name}: model image {} != expected {}", hex(&got), hex(want)));
+        }
+        if enc::size_of(&cfg) != want.len() {
+            return Err(format!("{name}: size_of {} != {}", enc::size_of(&cfg), want.len()));
+        }
+        Ok(())
+    };
+
+    // ---- images from the crate's own unit tests
+    enc_eq("app empty", Cfg::App { ssrc: 0x91827364, subtype: 0, name: "name".into(), data: vec![], padding: 0 },
+        &[0x80, 0xcc, 0x00, 0x02, 0x91, 0x82, 0x73, 0x64, 0x6e, 0x61, 0x6d, 0x65])?;
+    enc_eq("app padded", Cfg::App { ssrc: 0x91827364, subtype: 31, name: "name".into(), data: vec![1, 2, 3, 0], padding: 4 },
+        &[0xbf, 0xcc, 0x00, 0x04, 0x91, 0x82, 0x73, 0x64, 0x6e, 0x61, 0x6d, 0x65, 0x01, 0x02, 0x03, 0x00, 0x00, 0x00, 0x00, 0x04])?;
+    enc_eq("app short name", Cfg::App { ssrc: 0x91827364, subtype: 31, name: "nam".into(), data: vec![], padding: 0 },
+        &[0x9f, 0xcc, 0x00, 0x02, 0x91, 0x82, 0x73, 0x64, 0x6e, 0x61, 0x6d, 0x00])?;
+    enc_eq("bye empty", Cfg::Bye { sources: vec![], reason: String::new(), padding: 0 }, &[0x80, 0xcb, 0x00, 0x00])?;
+    enc_eq("bye static", Cfg::Bye { sources: vec![0x12345678], reason: "Bye".into(), padding: 0 },
+        &[0x81, 0xcb, 0x00, 0x02, 0x12, 0x34, 0x56, 0x78, 0x03, 0x42, 0x79, 0x65])?;
+    enc_eq("bye 3 sources", Cfg::Bye { sources: vec![0x12345678, 0x3456789a, 0x56789abc], reason: String::new(), padding: 0 },
+        &[0x83, 0xcb, 0x00, 0x03, 0x12, 0x34, 0x56, 0x78, 0x34, 0x56, 0x78, 0x9a, 0x56, 0x78, 0x9a, 0xbc])?;
+    enc_eq("bye reason", Cfg::Bye { sources: vec![0x12345678, 0x3456789a], reason: "Shutdown".into(), padding: 0 },
+        &[0x82, 0xcb, 0x00, 0x05, 0x12, 0x34, 0x56, 0x78, 0x34, 0x56, 0x78, 0x9a, 0x08, 0x53, 0x68, 0x75, 0x74, 0x64, 0x6f, 0x77, 0x6e, 0x00, 0x00, 0x00])?;
+    enc_eq("rr empty", Cfg::Rr { ssrc: 0x91827364, blocks: vec![], padding: 0 }, &[0x80, 0xc9, 0x00, 0x01, 0x91, 0x82, 0x73, 0x64])?;
+    {
+        let mut want = vec![0xa2, 0xc9, 0x00, 0x0e, 0x91, 0x82, 0x73, 0x64, 0x01, 0x23, 0x45, 0x67];
+        want.extend_from_slice(&[0; 20]);
+        want.extend_from_slice(&[0x01, 0x23, 0x45, 0x68]);
+        want.extend_from_slice(&[0; 20]);
+        want.extend_from_slice(&[0, 0, 0, 4]);
+        enc_eq("rr 2 blocks padded", Cfg::Rr { ssrc: 0x91827364, blocks: vec![rb0(0x1234567), rb0(0x1234568)], padding: 4 }, &want)?;
+    }
+    {
+        let mut want = vec![0x82, 0xc8, 0x00, 0x12, 0x91, 0x82, 0x73, 0x64, 0x89, 0xab, 0xcd, 0xef, 0x02, 0x24, 0x46, 0x68, 0x8a, 0xac, 0xce, 0xe0, 0xf1, 0xe2, 0xd3, 0xc4, 0xb5, 0xa6, 0x97, 0x88, 0x01, 0x23, 0x45, 0x67];
+        want.extend_from_slice(&[0; 20]);
+        want.extend_from_slice(&[0x01, 0x23, 0x45, 0x68]);
+        want.extend_from_slice(&[0; 20]);
+        enc_eq("sr 2 blocks", Cfg::Sr { ssrc: 0x91827364, ntp: 0x89abcdef02244668, rtp: 0x8aaccee0, pc: 0xf1e2d3c4, oc: 0xb5a69788, blocks: vec![rb0(0x1234567), rb0(0x1234568)], padding: 0 }, &want)?;
+    }
+    enc_eq("report block fields", Cfg::Rr { ssrc: 1, blocks: vec![Rb { ssrc: 0x1234567, fraction: 0x89, cumulative: 0xabcdef, ext_seq: 0x02244668, jitter: 0x8aaccee0, lsr: 0xf1d3b597, dlsr: 0x795b3d1f }], padding: 0 },
+        &[0x81, 0xc9, 0x00, 0x07, 0, 0, 0, 1, 0x01, 0x23, 0x45, 0x67, 0x89, 0xab, 0xcd, 0xef, 0x02, 0x24, 0x46, 0x68, 0x8a, 0xac, 0xce, 0xe0, 0xf1, 0xd3, 0xb5, 0x97, 0x79, 0x5b, 0x3d, 0x1f])?;
+    enc_eq("sdes cname name priv", Cfg::Sdes { chunks: vec![Chunk { ssrc: 0x12345678, items: vec![item(1, &[], "cname"), item(2, &[], "François"), item(8, b"priv-prefix", "priv-value")] }], padding: 0 },
+        &[0x81, 0xca, 0x00, 0x0c, 0x12, 0x34, 0x56, 0x78, 0x01, 0x05, 0x63, 0x6e, 0x61, 0x6d, 0x65, 0x02, 0x09, 0x46, 0x72, 0x61, 0x6e, 0xc3, 0xa7, 0x6f, 0x69, 0x73, 0x08, 0x16, 0x0b, 0x70, 0x72, 0x69, 0x76, 0x2d, 0x70, 0x72, 0x65, 0x66, 0x69, 0x78, 0x70, 0x72, 0x69, 0x76, 0x2d, 0x76, 0x61, 0x6c, 0x75, 0x65, 0x00, 0x00])?;
+    enc_eq("sdes two chunks", Cfg::Sdes { chunks: vec![Chunk { ssrc: 0x12345678, items: vec![item(1, &[], "cname"), item(2, &[], "François")] }, Chunk { ssrc: 0x3456789a, items: vec![item(3, &[], "user@host"), item(4, &[], "+33678901234")] }], padding: 0 },
+        &[0x82, 0xca, 0x00, 0x0e, 0x12, 0x34, 0x56, 0x78, 0x01, 0x05, 0x63, 0x6e, 0x61, 0x6d, 0x65, 0x02, 0x09, 0x46, 0x72, 0x61, 0x6e, 0xc3, 0xa7, 0x6f, 0x69, 0x73, 0x00, 0x00, 0x34, 0x56, 0x78, 0x9a, 0x03, 0x09, 0x75, 0x73, 0x65, 0x72, 0x40, 0x68, 0x6f, 0x73, 0x74, 0x04, 0x0c, 0x2b, 0x33, 0x33, 0x36, 0x37, 0x38, 0x39, 0x30, 0x31, 0x32, 0x33, 0x34, 0x00, 0x00, 0x00])?;
+    enc_eq("sdes multiple of 4 has terminator", Cfg::Sdes { chunks: vec![Chunk { ssrc: 0x12345678, items: vec![item(1, &[], "cname"), item(2, &[], "name")] }], padding: 0 },
+        &[0x81, 0xca, 0x00, 0x05, 0x12, 0x34, 0x56, 0x78, 0x01, 0x05, 0x63, 0x6e, 0x61, 0x6d, 0x65, 0x02, 0x04, 0x6e, 0x61, 0x6d, 0x65, 0x00, 0x00, 0x00])?;
+    let nack_hdr = |fmt_len: [u8; 2]| vec![0x81, 0xcd, fmt_len[0], fmt_len[1], 0x98, 0x76, 0x54, 0x32, 0x10, 0xfe, 0xdc, 0xba];
+    for (nseq, fci) in [(2u16, vec![0x12u8, 0x34, 0x00, 0x01]), (16, vec![0x12, 0x34, 0x7f, 0xff]), (17, vec![0x12, 0x34, 0xff, 0xff]), (18, vec![0x12, 0x34, 0xff, 0xff, 0x12, 0x45, 0x00, 0x00])] {
+        let mut want = nack_hdr([0, (2 + fci.len() / 4) as u8]);
+        want.extend_from_slice(&fci);
+        enc_eq("nack consecutive", Cfg::Fb { kind: FbKind::Transport, sender: 0x98765432, media: 0x10fedcba, fci: Fci::Nack((0..nseq).map(|i| 0x1234 + i).collect()), padding: 0 }, &want)?;
+    }
+    {
+        let mut want = nack_hdr([0, 3]);
+        want.extend_from_slice(&[0x12, 0x34, 0x02, 0b1010_1010]);
+        enc_eq("nack 12 step 2", Cfg::Fb { kind: FbKind::Transport, sender: 0x98765432, media: 0x10fedcba, fci: Fci::Nack((0..12u16).step_by(2).map(|i| 0x1234 + i).collect()), padding: 0 }, &want)?;
+    }
+    enc_eq("fir", Cfg::Fb { kind: FbKind::Payload, sender: 0x98765432, media: 0, fci: Fci::Fir(vec![(0xfedcba98, 0x30)]), padding: 0 },
+        &[0x84, 0xce, 0x00, 0x04, 0x98, 0x76, 0x54, 0x32, 0x00, 0x00, 0x00, 0x00, 0xfe, 0xdc, 0xba, 0x98, 0x30, 0x00, 0x00, 0x00])?;
+    enc_eq("sli", Cfg::Fb { kind: FbKind::Payload, sender: 0x98765432, media: 0x10fedcba, fci: Fci::Sli(vec![(0x1234, 0x0987, 0x25)]), padding: 0 },
+        &[0x82, 0xce, 0x00, 0x03, 0x98, 0x76, 0x54, 0x32, 0x10, 0xfe, 0xdc, 0xba, 0x91, 0xa2, 0x61, 0xe5])?;
+    enc_eq("rpsi", Cfg::Fb { kind: FbKind::Payload, sender: 0x98765432, media: 0x10fedcba, fci: Fci::Rpsi { pt: 96, bits: vec![0xff], overrun: 4 }, padding: 0 },
+        &[0x83, 0xce, 0x00, 0x03, 0x98, 0x76, 0x54, 0x32, 0x10, 0xfe, 0xdc, 0xba, 0x0c, 0x60, 0xf0, 0x00])?;
+    enc_eq("pli", Cfg::Fb { kind: FbKind::Payload, sender: 0x98765432, media: 0x10fedcba, fci: Fci::Pli, padding: 0 },
+        &[0x81, 0xce, 0x00, 0x02, 0x98, 0x76, 0x54, 0x32, 0x10, 0xfe, 0xdc, 0xba])?;
+
+    // ---- vectors worked by hand from the RFC figures
+    // RFC 3550 6.4.1: padding octets end with their count; P bit; length includes padding
+    enc_eq("bye reason + padding", Cfg::Bye { sources: vec![1], reason: "ab".into(), padding: 8 },
+        &[0xa1, 0xcb, 0x00, 0x04, 0, 0, 0, 1, 0x02, 0x61, 0x62, 0x00, 0, 0, 0, 0, 0, 0, 0, 8])?;
+    enc_eq("sdes empty chunk + padding", Cfg::Sdes { chunks: vec![Chunk { ssrc: 0x0000_0100, items: vec![] }], padding: 4 },
+        &[0xa1, 0xca, 0x00, 0x03, 0, 0, 1, 0, 0, 0, 0, 0, 0, 0, 0, 4])?;
+    enc_eq("sdes item ending on a boundary gets a full word of terminator", Cfg::Sdes { chunks: vec![Chunk { ssrc: 2, items: vec![item(1, &[], "ab")] }], padding: 0 },
+        &[0x81, 0xca, 0x00, 0x03, 0, 0, 0, 2, 1, 2, 0x61, 0x62, 0, 0, 0, 0])?;
+    enc_eq("sdes priv empty prefix", Cfg::Sdes { chunks: vec![Chunk { ssrc: 2, items: vec![item(8, &[], "v")] }], padding: 0 },
+        &[0x81, 0xca, 0x00, 0x03, 0, 0, 0, 2, 8, 2, 0, 0x76, 0, 0, 0, 0])?;
+    // RFC 4585 6.2.1: generic NACK PID + BLP, bit i of BLP = PID+i+1
+    enc_eq("nack window edge", Cfg::Fb { kind: FbKind::Transport, sender: 1, media: 2, fci: Fci::Nack(vec![100, 116, 117]), padding: 4 },
+        &[0xa1, 0xcd, 0x00, 0x05, 0, 0, 0, 1, 0, 0, 0, 2, 0, 100, 0x80, 0x00, 0, 117, 0, 0, 0, 0, 0, 4])?;
+    // RFC 4585 6.3.3.2: RPSI padded to 32 bits, PB counts the padding bits
+    enc_eq("rpsi 3 bytes", Cfg::Fb { kind: FbKind::Payload, sender: 1, media: 2, fci: Fci::Rpsi { pt: 127, bits: vec![1, 2, 3], overrun: 0 }, padding: 0 },
+        &[0x83, 0xce, 0x00, 0x04, 0, 0, 0, 1, 0, 0, 0, 2, 24, 127, 1, 2, 3, 0, 0, 0])?;
+    enc_eq("rpsi empty", Cfg::Fb { kind: FbKind::Payload, sender: 1, media: 2, fci: Fci::Rpsi { pt: 5, bits: vec![], overrun: 0 }, padding: 0 },
+        &[0x83, 0xce, 0x00, 0x03, 0, 0, 0, 1, 0, 0, 0, 2, 16, 5, 0, 0])?;
+    enc_eq("unknown padded", Cfg::Unknown { pt: 199, count: 3, data: vec![9, 8, 7, 6], padding: 4 }, &[0xa3, 199, 0, 2, 9, 8, 7, 6, 0, 0, 0, 4])?;
+    enc_eq("compound", Cfg::Compound(vec![Cfg::Rr { ssrc: 1, blocks: vec![], padding: 0 }, Cfg::Bye { sources: vec![], reason: String::new(), padding: 0 }]),
+        &[0x80, 0xc9, 0, 1, 0, 0, 0, 1, 0x80, 0xcb, 0, 0])?;
+
+    // ---- model helper functions
+    let mut check = |name: &str, ok: bool| -> Result<(), String> {
+        n += 1;
+        if ok {
+            Ok(())
+        } else {
+            Err(format!("{name}: failed"))
+        }
+    };
+    check("pad()", enc::pad(&[0x80, 0xcb, 0, 0], 4) == [0xa0, 0xcb, 0, 1, 0, 0, 0, 4])?;
+    check("nack decode", dec::nack(&[0x12, 0x34, 0x00, 0x01]) == [0x1234, 0x1235])?;
+    check("nack decode wrap", dec::nack(&[0xff, 0xff, 0x80, 0x01]) == [0xffff, 0x0000, 0x000f])?;
+    check("nack greedy words", enc::nack_words(&[0, 16, 17, 65535]) == [(0, 0x8000), (17, 0), (65535, 0)])?;
+    check("sli decode", dec::sli(&[0x91, 0xa2, 0x61, 0xe5]) == [(0x1234, 0x0987, 0x25)])?;
+    check("fir decode", dec::fir(&[0xfe, 0xdc, 0xba, 0x98, 0x30, 0, 0, 0, 1]) == [(0xfedcba98, 0x30)])?;
+    check("rpsi decode", matches!(dec::rpsi(&[0x0c, 0x60, 0xf0, 0x00]), Some((96, b)) if b.nbits == 4 && b.bit(0) && b.bit(3)))?;
+    check("rpsi decode PB too large", dec::rpsi(&[17, 0x60, 0xf0, 0x00]).is_none())?;
+    check("bits equality ignores trailing bits", dec::Bits::new(&[0xf7], 4).unwrap().same(&dec::Bits::new(&[0xf0], 4).unwrap()))?;
+    check("tiling ok", dec::tiling(&[0x80, 0xc9, 0, 1, 0, 0, 0, 1, 0x80, 0xcb, 0, 0]) == Some(vec![(0, 8), (8, 12)]))?;
+    check("tiling short", dec::tiling(&[0x80, 0xc9, 0, 2, 0, 0, 0, 1]).is_none())?;
+    check("tiling empty", dec::tiling(&[]).is_none())?;
+    check("tiling ragged", dec::tiling(&[0x80, 0xcb, 0, 0, 0x80]).is_none())?;
+    check("well_framed", dec::well_framed(&[0x80, 0xcb, 0, 0], Some(203), 4) && !dec::well_framed(&[0xa0, 0xcb, 0, 1, 0, 0, 0, 0], Some(203), 4) && dec::well_framed(&[0xa0, 0xc7, 0, 1, 0, 0, 0, 0], None, 4))?;
+    // SDES classifier
+    check("classify well-formed", matches!(dec::sdes_classify(&[0x81, 0xca, 0, 3, 0, 0, 0, 2, 1, 2, 0x61, 0x62, 0, 0, 0, 0]), SdesClass::MustAccept(t) if t.len() == 1 && t[0].encoded_len == 12 && t[0].items[0].value == b"ab"))?;
+    check("classify overrun", dec::sdes_classify(&[0x81, 0xca, 0, 2, 0, 0, 0, 2, 1, 9, 0x61, 0x62]) == SdesClass::MustReject(RejectReason::ItemOverrun))?;
+    check("classify priv prefix overrun", dec::sdes_classify(&[0x81, 0xca, 0, 3, 0, 0, 0, 2, 8, 2, 5, 0x62, 0, 0, 0, 0]) == SdesClass::MustReject(RejectReason::PrivPrefixOverrun))?;
+    check("classify fill", dec::sdes_classify(&[0x81, 0xca, 0, 2, 0, 0, 0, 2, 0, 1, 0, 0]) == SdesClass::MustReject(RejectReason::NonZeroFill))?;
+    check("classify unterminated", matches!(dec::sdes_classify(&[0x81, 0xca, 0, 2, 0, 0, 0, 2, 1, 2, 0x61, 0x62]), SdesClass::Either(_)))?;
+    check("classify sc mismatch", matches!(dec::sdes_classify(&[0x82, 0xca, 0, 2, 0, 0, 0, 2, 0, 0, 0, 0]), SdesClass::Either(_)))?;
+    check("classify zero-ssrc chunk", matches!(dec::sdes_classify(&[0x82, 0xca, 0, 4, 0, 0, 0, 2, 0, 0, 0, 0, 0, 0, 0, 0, 0, 0, 0, 0]), SdesClass::MustAccept(t) if t.len() == 2 && t[1].ssrc == 0))?;
+    // representability
+    check("repr ok", repr::violations(&Cfg::App { ssrc: 1, subtype: 31, name: "abcd".into(), data: vec![0; 8], padding: 252 }).is_empty())?;
+    check("repr rules", repr::violations(&Cfg::App { ssrc: 1, subtype: 32, name: "abcde".into(), data: vec![0; 7], padding: 3 }).len() == 4)?;
+    check("repr priv", repr::violations(&Cfg::Sdes { chunks: vec![Chunk { ssrc: 1, items: vec![item(8, &[0; 200], &"x".repeat(55))] }], padding: 0 }).len() == 1)?;
+    check("repr total size", repr::violations(&Cfg::Unknown { pt: 1, count: 0, data: vec![0; 262_144], padding: 0 }).len() == 1 && repr::violations(&Cfg::Unknown { pt: 1, count: 0, data: vec![0; 262_140], padding: 0 }).is_empty())?;
+    Ok(n)
+}
